@@ -111,25 +111,39 @@ def prune_cache(keep):
     for p in ents[30:]:
         if os.path.basename(p) != keep:
             shutil.rmtree(p, ignore_errors=True)
+            for f in os.listdir(CACHE):
+                if f.startswith(".lock-" + os.path.basename(p)):
+                    try:
+                        os.unlink(os.path.join(CACHE, f))
+                    except OSError:
+                        pass
 
 
 def facts_for(config, repo=REPO):
     """Return the facts dir for the current working tree of `repo`; extract when not cached."""
     ensure_driver()
     os.makedirs(CACHE, exist_ok=True)
-    lock = open(os.path.join(CACHE, ".lock"), "w")
+    h = tree_hash(repo)
+    d = os.path.join(CACHE, h, config)
+    # one extraction per (tree, configuration): checks of the same tree wait for the first one's facts, checks of
+    # different trees (scratch copies in the validation tools) extract in parallel
+    lock = open(os.path.join(CACHE, ".lock-%s-%s" % (h, config)), "w")
     fcntl.flock(lock, fcntl.LOCK_EX)
     try:
-        h = tree_hash(repo)
-        d = os.path.join(CACHE, h, config)
         if not (os.path.isdir(d) and any(f.endswith(".json") for f in os.listdir(d))):
             extract(config, repo, d)
         os.utime(os.path.join(CACHE, h), None)
-        prune_cache(h)
-        return d, h
     finally:
         fcntl.flock(lock, fcntl.LOCK_UN)
         lock.close()
+    glock = open(os.path.join(CACHE, ".lock"), "w")
+    fcntl.flock(glock, fcntl.LOCK_EX)
+    try:
+        prune_cache(h)
+    finally:
+        fcntl.flock(glock, fcntl.LOCK_UN)
+        glock.close()
+    return d, h
 
 
 def load_program(config, repo=REPO):
